@@ -1,8 +1,10 @@
 package c11
 
 import (
+	"errors"
 	"fmt"
 	"os"
+	"sync/atomic"
 	"sort"
 	"strings"
 	"sync"
@@ -15,6 +17,8 @@ import (
 	"github.com/pion/rtp"
 	"pgregory.net/rapid"
 )
+
+var errRTCPWriter = errors.New("injected RTCP writer error")
 
 const (
 	twccID   = 5
@@ -360,7 +364,8 @@ func TestLifecycle(t *testing.T) {
 							switch v := p.(type) {
 							case *rtcp.ReceiverReport:
 								for _, rr := range v.Reports {
-									if rr.SSRC == r.info.SSRC && (rr.TotalLost != 0 || uint16(rr.LastSequenceNumber) != r.seq || rr.LastSequenceNumber>>16 != 0) { //nolint:gosec
+									// (a report generated while the packets were still being read may name any of the new numbers)
+									if rr.SSRC == r.info.SSRC && (rr.TotalLost != 0 || uint16(rr.LastSequenceNumber)-r.first > r.seq-r.first || rr.LastSequenceNumber>>16 != 0) { //nolint:gosec
 										t.Fatalf("%s: ssrc %#x was bound again and received %d..%d in order, but its receiver report says highest %d (cycles %d), cumulative lost %d (ops %v)",
 											name, r.info.SSRC, r.first, r.seq, uint16(rr.LastSequenceNumber), rr.LastSequenceNumber>>16, rr.TotalLost, ops) //nolint:gosec
 									}
@@ -384,6 +389,23 @@ func TestLifecycle(t *testing.T) {
 						}
 					}
 				}
+			},
+			"failRTCPWrites": func(t *rapid.T) {
+				if !writerBound || closed {
+					t.Skip("no writer / closed")
+				}
+				n := rapid.IntRange(1, 3).Draw(t, "failures")
+				trace.U(10).I(n)
+				logOp("next %d RTCP writes fail", n)
+				var left = int32(n)
+				rtcpSink.SetFailIf(func(kit.SentRTCP) error {
+					if atomic.AddInt32(&left, -1) >= 0 {
+						return errRTCPWriter
+					}
+
+					return nil
+				})
+				time.Sleep(3 * interval)
 			},
 			"close": func(t *rapid.T) {
 				if closed {
@@ -417,6 +439,18 @@ func TestLifecycle(t *testing.T) {
 									raw, _ := (&rtp.Packet{Header: h, Payload: []byte{1}}).Marshal()
 									r.src.Push(raw)
 									_, _, _ = r.r.Read(make([]byte, 1500), interceptor.Attributes{})
+								}
+							}
+							if rtcpIn != nil { // feedback keeps arriving while Close runs
+								fb := &rtcp.TransportLayerCC{SenderSSRC: 9, MediaSSRC: 0x6001, BaseSequenceNumber: uint16(30000 + k - 2), PacketStatusCount: 2, ReferenceTime: uint32(k + 1), //nolint:gosec
+									PacketChunks: []rtcp.PacketStatusChunk{&rtcp.RunLengthChunk{PacketStatusSymbol: rtcp.TypeTCCPacketReceivedSmallDelta, RunLength: 2}},
+									RecvDeltas:   []*rtcp.RecvDelta{{Type: rtcp.TypeTCCPacketReceivedSmallDelta, Delta: 250}, {Type: rtcp.TypeTCCPacketReceivedSmallDelta, Delta: 250}}}
+								fb.Header = rtcp.Header{Count: rtcp.FormatTCC, Type: rtcp.TypeTransportSpecificFeedback, Length: 5}
+								raw, err := rtcp.Marshal([]rtcp.Packet{fb, &rtcp.CCFeedbackReport{SenderSSRC: 9, ReportTimestamp: uint32(k), ReportBlocks: []rtcp.CCFeedbackReportBlock{{MediaSSRC: 0x6001,
+									BeginSequence: uint16(20000 + k), MetricBlocks: []rtcp.CCFeedbackMetricBlock{{Received: true, ArrivalTimeOffset: 3}}}}}}) //nolint:gosec
+								if err == nil {
+									rtcpSrc.Push(raw)
+									_, _, _ = rtcpIn.Read(make([]byte, 1500), interceptor.Attributes{})
 								}
 							}
 						}
